@@ -2,6 +2,9 @@ import TallyProofs.Lemmas.ScopeLifeTok
 /-!
 # The invariant of the combined model is preserved by every step (`life_inv_step`), hence holds in every reachable
 state (`life_inv_reach`)
+
+Also: `FinalFlushCov` / `ffc_reach` (the winning call's final flush, which comes AFTER the purge, counts every barrier
+token, and nothing delivered later is one) and `RootFlag` / `rootFlag_reach`.
 -/
 namespace Tally.ScopeLife
 open Tally.Registry (Token ScopeS Pc pcOf scopeOf lookup isPassPc step_pcOf_ne actor Inv shadow NoPre allPending
@@ -37,10 +40,6 @@ theorem Tok.regStep {s s' : State} {r : Registry.State} {e : Registry.Ev} (h : T
       · exact Or.inl h1
       · right; rw [hreg]; exact h1
     · right; rw [hreg]; exact swapper_keep h.base hr hne hreg hsw hh
-  | flushPc =>
-    rw [hcw] at hcov
-    simp only
-    rw [hreg]; exact swapper_keep h.base hr hne hreg hcov hh
   | purgePc =>
     rw [hcw] at hcov
     simp only
@@ -56,11 +55,12 @@ theorem Tok.ctlOnly {s s' : State} (h : Tok san s) (hreg : s'.reg = s.reg) (hp :
   rw [cov_congr hc hreg hsnap]
   exact h.cover w (hw ▸ hw') sid ((hotB_congr hp (by rw [hreg]) sid).mp hh)
 
-/-- a control move of call `t` to a pc that is neither inside nor right after the final pass, the shard untouched -/
+/-- a control move of call `t` to a pc that is neither inside the final pass nor between it and the purge, the shard
+untouched -/
 theorem Tok.setC {s s' : State} (h : Tok san s) (t : Nat) (p' : CPc) (hreg : s'.reg = s.reg)
     (hp : s'.preRoot = s.preRoot) (hpu : s'.purged = s.purged) (hw : s'.winner = s.winner)
     (hc : s'.closers = fun u => if u = t then p' else s.closers u) (hsnap : s'.snap = s.snap)
-    (hp' : p' ≠ .pass ∧ p' ≠ .flushPc ∧ p' ≠ .purgePc) : Tok san s' := by
+    (hp' : p' ≠ .pass ∧ p' ≠ .purgePc) : Tok san s' := by
   refine ⟨h.base.congr hreg hp hpu, ?_⟩
   intro w hw' sid hh
   have hcov := h.cover w (hw ▸ hw') sid ((hotB_congr hp (by rw [hreg]) sid).mp hh)
@@ -69,8 +69,8 @@ theorem Tok.setC {s s' : State} (h : Tok san s) (t : Nat) (p' : CPc) (hreg : s'.
   by_cases he : w = t
   · subst he
     simp only [if_true]
-    obtain ⟨h1, h2, h3⟩ := hp'
-    cases p' <;> first | trivial | exact absurd rfl h1 | exact absurd rfl h2 | exact absurd rfl h3
+    obtain ⟨h1, h2⟩ := hp'
+    cases p' <;> first | trivial | exact absurd rfl h1 | exact absurd rfl h2
   · simp only [he, if_false]
     cases hcw : s.closers w <;> rw [hcw] at hcov <;> simp only [Unvisited, hreg, hsnap] <;> exact hcov
 
@@ -97,7 +97,7 @@ theorem life_tok_step {s s' : State} {e : Ev} (hctl : Ctl s) (h : Tok san s) (hs
         intro hpur
         have := hctl.purged_iff
         rw [hpur] at this
-        have h7 : 7 ≤ ph (wpc s) := by simpa using this.symm
+        have h7 : 6 ≤ ph (wpc s) := by simpa using this.symm
         cases hw : s.winner with
         | none => simp [wpc, hw, ph] at h7
         | some w => rw [hctl.closed_iff, hw]; rfl
@@ -116,7 +116,6 @@ theorem life_tok_step {s s' : State} {e : Ev} (hctl : Ctl s) (h : Tok san s) (hs
       unfold Cov at hcov ⊢
       show (match s.closers w with
         | .pass => Unvisited { s with reg := r, preRoot := _ } w sid' ∨ Swapper r sid'
-        | .flushPc => Swapper r sid'
         | .purgePc => Swapper r sid'
         | _ => True)
       have hsw : Swapper s.reg sid' → Swapper r sid' := fun ⟨t, ht⟩ => ⟨t, by rw [hpc]; exact ht⟩
@@ -124,7 +123,6 @@ theorem life_tok_step {s s' : State} {e : Ev} (hctl : Ctl s) (h : Tok san s) (hs
       · rcases hcov with ⟨k, h1, h2, h3⟩ | hcov
         · left; exact ⟨k, by show (k, sid') ∈ r.reg; rw [hreg]; exact h1, h2, by show k ∉ visitedOf (pcOf r _); rw [hpc]; exact h3⟩
         · exact Or.inr (hsw hcov)
-      · exact hsw hcov
       · exact hsw hcov
   | close sid =>
     simp only [step, regStep] at hs
@@ -222,7 +220,7 @@ theorem life_tok_step {s s' : State} {e : Ev} (hctl : Ctl s) (h : Tok san s) (hs
           cases hw'
           unfold Cov
           show (match (if t = t then CPc.won else s.closers t) with
-            | .pass => _ | .flushPc => _ | .purgePc => _ | _ => True)
+            | .pass => _ | .purgePc => _ | _ => True)
           simp
     · cases hs
       exact h.setC t .doneClosedPc rfl rfl rfl rfl rfl rfl (by simp)
@@ -254,7 +252,7 @@ theorem life_tok_step {s s' : State} {e : Ev} (hctl : Ctl s) (h : Tok san s) (hs
         unfold Cov
         show (match (if t = t then CPc.pass else s.closers t) with
           | .pass => Unvisited { setC s t CPc.pass with reg := r, snap := s.reg.reg } t sid ∨ Swapper r sid
-          | .flushPc => _ | .purgePc => _ | _ => True)
+          | .purgePc => _ | _ => True)
         simp only [if_true]
         left
         refine ⟨k, hk', hk, ?_⟩
@@ -277,20 +275,7 @@ theorem life_tok_step {s s' : State} {e : Ev} (hctl : Ctl s) (h : Tok san s) (hs
         · exact h2
         · exact absurd hpc h1
     · next hpc =>
-      cases hs
-      have hw := hctl.winner_of t (by rw [hpc]; simp [ph])
-      refine ⟨h.base.congr rfl rfl rfl, ?_⟩
-      intro w hw' sid hh
-      have hwt : some t = some w := hw.symm.trans hw'
-      cases hwt
-      have hcov := h.cover t hw sid hh
-      unfold Cov at hcov ⊢
-      rw [hpc] at hcov
-      show (match (if t = t then CPc.purgePc else s.closers t) with
-        | .pass => _ | .flushPc => _ | .purgePc => Swapper s.reg sid | _ => True)
-      simp only [if_true]
-      exact hcov
-    · next hpc =>
+      -- the purge: no reader, hence no thread about to swap, hence no cell holds a barrier token
       split at hs
       · next hrd =>
         cases hs
@@ -307,10 +292,12 @@ theorem life_tok_step {s s' : State} {e : Ev} (hctl : Ctl s) (h : Tok san s) (hs
         have hwt : some t = some w := hw.symm.trans hw'
         cases hwt
         unfold Cov
-        show (match (if t = t then CPc.reporterClose else s.closers t) with
-          | .pass => _ | .flushPc => _ | .purgePc => _ | _ => True)
+        show (match (if t = t then CPc.flushPc else s.closers t) with
+          | .pass => _ | .purgePc => _ | _ => True)
         simp
       · cases hs
+    · cases hs
+      exact h.setC t .reporterClose rfl rfl rfl rfl rfl rfl (by simp)
     · split at hs
       · cases hs
         exact h.setC t (.returned s.err) rfl rfl rfl rfl rfl rfl (by simp)
@@ -334,16 +321,16 @@ theorem life_tok_step {s s' : State} {e : Ev} (hctl : Ctl s) (h : Tok san s) (hs
           intro w hw' sid hh
           have hwt : some t = some w := hw.symm.trans hw'
           cases hwt
-          have hh0 := hot_back (s' := { setC s t CPc.flushPc with reg := r }) h.base hr hne rfl rfl hh
+          have hh0 := hot_back (s' := { setC s t CPc.purgePc with reg := r }) h.base hr hne rfl rfl hh
           have hcov := h.cover t hw sid hh0
           unfold Cov at hcov ⊢
           rw [hpc] at hcov
-          show (match (if t = t then CPc.flushPc else s.closers t) with
-            | .pass => _ | .flushPc => Swapper r sid | .purgePc => _ | _ => True)
+          show (match (if t = t then CPc.purgePc else s.closers t) with
+            | .pass => _ | .purgePc => Swapper r sid | _ => True)
           simp only [if_true]
           rcases hcov with ⟨k, hk, hks, hkv⟩ | hsw
           · exact absurd (finalPass_visited hfin hk hks) hkv
-          · exact swapper_keep (s' := { setC s t CPc.flushPc with reg := r }) h.base hr hne rfl hsw hh
+          · exact swapper_keep (s' := { setC s t CPc.purgePc with reg := r }) h.base hr hne rfl hsw hh
       · cases hs
     · cases hs
 
@@ -442,6 +429,158 @@ theorem mem_allPending {r : Registry.State} {tok : Token} (hnd : (r.pcs.map (·.
         simp only [List.lookup, this]
         exact ih hnd.2 hq'
   simp only [pcOf, hl, Option.getD_some]; exact hm
+
+/-! ## the final flush covers every barrier token
+
+The final `Flush` of the winning `Close` call comes after the purge.  When it is logged (`flush n` with
+`n = delivered.length`) no barrier token is in a cell or pending any more (`purgedCold`, `pendNoB`), so every barrier
+token is among those `n` deliveries; afterwards `delivered` only grows at its head, by tokens that were pending or in a
+cell — none of them a barrier token — and no `flush` entry is logged any more. -/
+
+/-- the number recorded in the most recent `flush` entry of the log -/
+def lastFlush : List LogEv → Option Nat
+  | [] => none
+  | .flush n :: _ => some n
+  | .reporterClose _ :: l => lastFlush l
+
+/-- what a step does to the shard, to the ghost `preRoot` and to the log -/
+theorem step_summary {s s' : State} {e : Ev} (hs : step san s e = some s') :
+    (s'.reg = s.reg ∨ s'.reg = purgeReg s.reg ∨ ∃ e', Registry.step san s.reg e' = some s'.reg) ∧
+    (s.rootClosed = true → s'.preRoot = s.preRoot) ∧
+    (s'.log = s.log ∨ (∃ k, s'.log = .reporterClose k :: s.log) ∨
+      (s'.log = .flush s.reg.delivered.length :: s.log ∧ s'.reg = s.reg ∧
+        (s.loop = .flushPc ∨ ∃ t, s.closers t = .flushPc))) := by
+  cases e <;> simp only [step, regStep] at hs <;> repeat' split at hs
+  all_goals first | cases hs | skip
+  all_goals refine ⟨?_, ?_, ?_⟩
+  all_goals first
+    | exact Or.inl rfl
+    | exact Or.inr (Or.inl rfl)
+    | exact Or.inr (Or.inr ⟨_, ‹_›⟩)
+    | exact fun _ => rfl
+    | exact fun hc => absurd hc ‹_›
+    | exact Or.inr (Or.inl ⟨_, rfl⟩)
+    | exact Or.inr (Or.inr ⟨rfl, rfl, Or.inl ‹_›⟩)
+    | exact Or.inr (Or.inr ⟨rfl, rfl, Or.inr ⟨_, ‹_›⟩⟩)
+
+/-- only `Close` call `w` itself changes its pc -/
+theorem step_closers_other {s s' : State} {e : Ev} (hs : step san s e = some s') (w : Nat)
+    (h1 : ∀ c, e ≠ .closer w c) (h2 : e ≠ .closerEnd w) : s'.closers w = s.closers w := by
+  cases e with
+  | closer t c =>
+    have hne : w ≠ t := fun e => h1 c (e ▸ rfl)
+    simp only [step, regStep] at hs
+    repeat' split at hs
+    all_goals first | cases hs | skip
+    all_goals simp [setC, hne]
+  | closerEnd t =>
+    have hne : w ≠ t := fun e => h2 (e ▸ rfl)
+    simp only [step] at hs
+    repeat' split at hs
+    all_goals first | cases hs | skip
+    all_goals simp [setC, hne]
+  | _ =>
+    simp only [step, regStep] at hs
+    repeat' split at hs
+    all_goals first | cases hs | skip
+    all_goals rfl
+
+/-- once the winning call has logged its final flush `flush n`: the `n` oldest deliveries are still the `n` oldest
+deliveries, and nothing delivered since is a barrier token -/
+def FinalFlushCov (s : State) : Prop :=
+  7 ≤ ph (wpc s) → ∃ n newer older, lastFlush s.log = some n ∧ s.reg.delivered = newer ++ older ∧ older.length = n ∧
+    ∀ tok ∈ newer, ¬ Barrier s tok
+
+theorem ffc_step {s s' : State} {e : Ev} (hI : LifeInv san s) (h : FinalFlushCov s) (hs : step san s e = some s') :
+    FinalFlushCov s' := by
+  intro h7'
+  have hc := hI.ctl
+  obtain ⟨hreg, hpre, hlog⟩ := step_summary hs
+  by_cases h7 : 7 ≤ ph (wpc s)
+  · obtain ⟨n, newer, older, hlf, hdel, hlen, hnb⟩ := h h7
+    obtain ⟨w, hw⟩ : ∃ w, s.winner = some w := by
+      cases hw : s.winner with
+      | none => simp [wpc, hw, ph] at h7
+      | some w => exact ⟨w, rfl⟩
+    have hwpc := wpc_of_winner hw
+    have hrc : s.rootClosed = true := by rw [hc.closed_iff, hw]; rfl
+    have hex : s.loop = .exited := hc.loopEx (by omega)
+    have hpur : s.purged = true := by
+      rw [hc.purged_iff]; simp only [decide_eq_true_eq]; omega
+    have hpr := hpre hrc
+    have hlf' : lastFlush s'.log = some n := by
+      rcases hlog with h1 | ⟨k, h1⟩ | ⟨_, _, h1 | ⟨t, h1⟩⟩
+      · rw [h1]; exact hlf
+      · rw [h1]; exact hlf
+      · rw [hex] at h1; cases h1
+      · have := hc.winner_of t (by rw [h1]; simp [ph])
+        rw [hw] at this; cases this
+        rw [hwpc, h1] at h7; simp [ph] at h7
+    have hgrow : ∃ nw, s'.reg.delivered = nw ++ s.reg.delivered ∧ ∀ tok ∈ nw, ¬ Barrier s tok := by
+      rcases hreg with h1 | h1 | ⟨e', h1⟩
+      · exact ⟨[], by rw [h1]; rfl, fun _ hm => by cases hm⟩
+      · exact ⟨[], by rw [h1]; rfl, fun _ hm => by cases hm⟩
+      · obtain ⟨nw, hd, hsrc⟩ := Registry.step_delivered h1
+        refine ⟨nw, hd, fun tok hm hb => ?_⟩
+        rcases hsrc tok hm with hp | ⟨sid, x, hx, hmx⟩
+        · exact hI.tok.base.pendNoB hpur tok hp hb
+        · exact hI.tok.base.purgedCold hpur sid ⟨x, tok, hx, hmx, hb⟩
+    obtain ⟨nw, hd, hnw⟩ := hgrow
+    refine ⟨n, nw ++ newer, older, hlf', by rw [hd, hdel, List.append_assoc], hlen, ?_⟩
+    intro tok hm
+    rw [barrier_congr hpr]
+    rcases List.mem_append.mp hm with hm | hm
+    · exact hnw tok hm
+    · exact hnb tok hm
+  · -- the step is the final flush of the winning call
+    obtain ⟨w, hw'⟩ : ∃ w, s'.winner = some w := by
+      cases hw : s'.winner with
+      | none => simp [wpc, hw, ph] at h7'
+      | some w => exact ⟨w, rfl⟩
+    have h7w : 7 ≤ ph (s'.closers w) := by rw [← wpc_of_winner hw']; exact h7'
+    have hstay : s'.closers w = s.closers w → False := by
+      intro he
+      have hww := hc.winner_of w (by rw [← he]; omega)
+      rw [wpc_of_winner hww, ← he] at h7; exact h7 h7w
+    by_cases h1 : ∃ c, e = .closer w c
+    · obtain ⟨c, rfl⟩ := h1
+      cases hcw : s.closers w with
+      | flushPc =>
+        simp only [step, hcw] at hs
+        cases hs
+        exact ⟨s.reg.delivered.length, [], s.reg.delivered, rfl, rfl, rfl, fun _ hm => by cases hm⟩
+      | reporterClose =>
+        exact absurd (by rw [wpc_of_winner (hc.winner_of w (by rw [hcw]; simp [ph])), hcw]; simp [ph]) h7
+      | _ =>
+        simp only [step, regStep, hcw] at hs
+        repeat' split at hs
+        all_goals first | cases hs | skip
+        all_goals simp [setC, ph, hcw] at h7w
+    · by_cases h2 : e = .closerEnd w
+      · subst h2
+        simp only [step] at hs
+        repeat' split at hs
+        all_goals first | cases hs | skip
+        all_goals simp [setC, ph] at h7w
+      · exact (hstay (step_closers_other hs w (fun c hc => h1 ⟨c, hc⟩) h2)).elim
+
+theorem ffc_reach {s : State} {es : List Ev} (hsan : ∀ k, san (san k) = san k) {hl cl : Bool} {er : Option Nat}
+    (hr : run san (init san hl cl er) es = some s) : FinalFlushCov s := by
+  have key : ∀ (es : List Ev) (s0 : State), LifeInv san s0 → FinalFlushCov s0 → run san s0 es = some s →
+      FinalFlushCov s := by
+    intro es
+    induction es with
+    | nil => intro s0 _ h0 hr; simp only [run, Option.some.injEq] at hr; subst hr; exact h0
+    | cons e es ih =>
+      intro s0 hi h0 hr
+      simp only [run] at hr
+      split at hr
+      · cases hr
+      · next s1 h1 => exact ih s1 (life_inv_step hi h1) (ffc_step hi h0 h1) hr
+  refine key es _ ⟨ctl_init san hl cl er, tok_init hsan hl cl er⟩ ?_ hr
+  intro h7
+  have : wpc (init san hl cl er) = .start := rfl
+  rw [this] at h7; simp [ph] at h7
 
 /-! ## the root's flag is the closed flag of scope 0 of the shard -/
 
@@ -588,7 +727,6 @@ theorem rootFlag_step {s s' : State} {e : Ev} (hctl : Ctl s) (hI : Inv san (shad
     · split at hs
       · cases hs
       · next r hr => cases hs; exact rootFlag_regStep hI h hr (by intro _ e; cases e) rfl rfl rfl
-    · cases hs; exact hkeep _ rfl rfl
     · next hpc =>
       split at hs
       · cases hs
@@ -603,6 +741,7 @@ theorem rootFlag_step {s s' : State} {e : Ev} (hctl : Ctl s) (hI : Inv san (shad
           · rfl
           · rw [hc, hrc]
       · cases hs
+    · cases hs; exact hkeep _ rfl rfl
     · split at hs <;> cases hs <;> exact hkeep _ rfl rfl
     · cases hs
     · cases hs
